@@ -14,7 +14,7 @@ mv paseto-test/tests/$DEMO.rs /tmp/$DEMO.rs.hold
 CARGO_NET_OFFLINE=true cargo nextest run --workspace --no-fail-fast --offline --test-threads 8 2>&1 | grep -E "Summary|FAIL" | head -5
 mv /tmp/$DEMO.rs.hold paseto-test/tests/$DEMO.rs
 echo "== with patch: demo"
-RUSTFLAGS="$EXTRA_FLAGS" CARGO_NET_OFFLINE=true cargo test -p paseto-test --offline --test $DEMO 2>&1 | grep -E "^test result|FAILED|panicked" | head -5
+RUSTFLAGS="$EXTRA_FLAGS" CARGO_NET_OFFLINE=true cargo test -p paseto-test --offline --test $DEMO 2>&1 | grep -aE "^test result|FAILED|panicked" | head -5; echo "demo exit with patch: $?"
 git apply -R _out/patch.diff
 echo "== without patch: demo"
 RUSTFLAGS="$EXTRA_FLAGS" CARGO_NET_OFFLINE=true cargo test -p paseto-test --offline --test $DEMO 2>&1 | grep -E "^test result|FAILED" | head -5
